@@ -17,6 +17,9 @@ def enumerate_specs(tier):
     for name, od in cat.REG.items():
         for args in od.configs(tier):
             n = len(od.inputs(args))
+            if args.get("precise"):   # double-precision comparison with the real guard constants in place
+                specs.append({"op": name, "args": args, "variant": {"req": [1] * n, "dtype": "float64", "precise": True}})
+                continue
             masks = [m for m in itertools.product((1, 0), repeat=n) if any(m)]
             if tier == "quick" and n >= 2:
                 # all-on, plus each operand alone
